@@ -142,6 +142,14 @@ func cmdGen(args map[string]string) {
 	r := common.NewRand(seed)
 	st := newStats()
 	ops := mutOps()
+	// the rule families with many sub-variants get more slots in the round-robin
+	weight := map[string]int{"wrong-literal-kind": 4, "var-incompatible-type": 3, "null-for-non-null": 2,
+		"conflict-different-args": 2, "conflict-different-names": 2, "conflict-different-shapes": 2}
+	for _, o := range mutOps() {
+		for k := 1; k < weight[o.name]; k++ {
+			ops = append(ops, o)
+		}
+	}
 	var e *env
 	perSchema := 20
 	opIdx := 0
